@@ -51,6 +51,10 @@ func (c *Ctx) execInstr(in ssa.Instruction, st *State) {
 		}
 		if obj := x.Object(); obj != nil && !x.IsAddr {
 			c.dbg[obj.Name()] = append(c.dbg[obj.Name()], x.X)
+			if c.dbgObj == nil {
+				c.dbgObj = map[ssa.Value]types.Object{}
+			}
+			c.dbgObj[x.X] = obj
 		}
 	case *ssa.Alloc:
 		et := x.Type().Underlying().(*types.Pointer).Elem()
